@@ -5,6 +5,7 @@ import (
 	"crypto/ed25519"
 	"fmt"
 	"os"
+	"regexp"
 	"runtime/debug"
 	"sort"
 	"strings"
@@ -254,7 +255,7 @@ type world struct {
 	versions map[string][]string // collection -> version ids in order of discovery
 	views    int
 	rolled   map[string]bool // operations that were rolled back and not yet redone
-	owner    map[string]int // docID -> identity that created it (acp mode)
+	owner    map[string]int  // docID -> identity that created it (acp mode)
 
 	step       int
 	restarts   int
@@ -406,6 +407,8 @@ func errText(err error) string {
 	return "error: " + err.Error()
 }
 
+var didYouMean = regexp.MustCompile(` Did you mean [^?]*\?`)
+
 func isErr(s string) bool { return strings.HasPrefix(s, "error: ") || strings.HasPrefix(s, "PANIC") }
 
 // both runs the operation on R and then on T and compares the rendered results.
@@ -420,6 +423,9 @@ func (w *world) both(kind, desc string, f func(n *hx.Node, isR bool) string) (st
 	if w.p2p != nil {
 		rr, rt = w.p2p.symbolic(rr, true), w.p2p.symbolic(rt, false)
 	}
+	// graphql-go's "Did you mean ..." suggestions come in an order that depends on the order in which the
+	// type system was built (the restarted node rebuilds it from the store): not part of the answer
+	rr, rt = didYouMean.ReplaceAllString(rr, ""), didYouMean.ReplaceAllString(rt, "")
 	if rr != rt {
 		diag := "different-value"
 		switch {
